@@ -7,7 +7,13 @@ of the sources (Bell(N)) supplied as ``group_id`` are executed on the real
 fit shape, mask, error map, local background, xy bounds, image scale) and a list of
 single-axis variants (NaN pixels +- user mask, fitters, fixed/extra parameters, groupers,
 label sets, scenes with a source outside the image / of negative flux, the iterative
-driver, a perturbed scene).  The scene is rendered by plain superposition of the PSF
+driver, a perturbed scene).  Options that the documentation ORDERS BY PRECEDENCE are
+enumerated in combination, not only as alternatives: localbkg_estimator + ``local_bkg``
+column, grouper + ``group_id`` column, finder + init_params, aperture_radius + flux column
+(the column / table wins each time; full product of the five overrides x driver), and every
+spelling and every ordered pair of spellings of the x / y / flux (/ extra parameter) columns
+of init_params ("searched in the above order, stopping at the first match"; the losing
+spelling carries decoy values).  The scene is rendered by plain superposition of the PSF
 model evaluated on the pixel grid (never ``make_model_image``); group expectations come
 from a union-find single-linkage reference, pixel counts from a direct window count,
 parameter errors / qfit / cfit from their textbook definitions.
@@ -29,14 +35,26 @@ RULE = ('for every configuration: all N! input row orders x all set partitions o
         'group_id; or the grouper / no grouping where the partition axis does not apply), N = 1..Nmax; cases are '
         'distinct product indices; a case is non-trivial when N >= 2 and the fitted (group-sorted) order differs '
         'from the input row order or a group has more than one member (i.e. un-grouping actually permutes or splits '
-        'something); plus all ordered tuples of <= 4 distinct points of a 3x3 lattice x 9 separations for '
-        'SourceGrouper alone')
+        'something); the precedence-ordered options are enumerated in combination (estimator+local_bkg column, '
+        'grouper+group_id column, finder+init_params, aperture_radius+flux column: full 2^4 product x {one spelling, '
+        'two spellings} x driver, the init table / column must win and the finder must not be called), and the '
+        'column-name alphabet is complete: all 14 documented x/y spellings alone and all 91 ordered pairs of them '
+        '(the 10 flux spellings / 45 pairs ride along cyclically; the 3 extra-parameter spellings / 3 pairs with the '
+        'free-fwhm model), the later spelling filled with decoy values and placed first in the table; plus all ordered tuples of <= 4 distinct points of a 3x3 lattice x 9 '
+        'separations for SourceGrouper alone')
 ASSUMPTIONS = ['numpy, astropy.modeling fitters (TRF/LM/simplex), astropy.table and the PSF model classes '
                'themselves (evaluate; covered by C13) are trusted',
                'exact recovery is demanded only of groups that contain every source contributing more than 1e-9 of '
                'a member peak inside a member fit box (rule evaluated on the input truth), with an LSQ fitter, no '
                'bound closer than the initial offset and a local background known to 1e-9 of the peak',
-               'N <= 4 sources, one lattice scene (+2 variants), images 27x47: larger groups are out of the bound']
+               'N <= 4 sources, one lattice scene (+2 variants), images 27x47: larger groups are out of the bound',
+               'precedence rules are the documented ones (PSFPhotometry docstring: "The local_bkg values in init_params '
+               'override this keyword", "The group_id values in init_params override this keyword", "The (x, y) values in '
+               'init_params override this keyword", "If initial flux values are present in the init_params table, they '
+               'will override this keyword", "The parameter names are searched in the input table in the above order, '
+               'stopping at the first match"; user guide: init_params "bypass" the finder / grouping / background steps, '
+               'the iterative class uses the finder only in "subsequent iterations"); undocumented columns (e.g. a '
+               'supplied id column) are not enumerated']
 
 # --------------------------------------------------------------------------
 # alphabets
@@ -52,46 +70,101 @@ SIGN = [(1.0, -1.0), (1.0, 1.0), (-1.0, -1.0), (-1.0, 1.0)]
 FLUXFAC = [0.8, 1.2, 0.9, 1.1]
 GAP_LABELS = (7, 3, 12, 5)          # non-contiguous, unsorted user labels per block
 
+# documented column spellings of init_params, in the documented search order ("stopping at the first match")
+XY_SUFFIX = ['_init', 'init', '', '_0', '0', 'centroid', '_centroid', '_peak', 'cen', '_cen', 'pos', '_pos', '_fit', 'fit']
+FLUX_NAMES = ['flux_init', 'fluxinit', 'flux', 'flux_0', 'flux0', 'flux_fit', 'fluxfit', 'source_sum', 'segment_flux',
+              'kron_flux']
+EXTRA_SUFFIX = ['_init', '', '_fit']          # extra fitted parameters (fwhm): "_init", "" (no suffix), "_fit"
+XY_PAIRS = list(itertools.combinations(range(len(XY_SUFFIX)), 2))            # 91, winner index < loser index
+FLUX_PAIRS = list(itertools.combinations(range(len(FLUX_NAMES)), 2))         # 45
+EXTRA_PAIRS = list(itertools.combinations(range(len(EXTRA_SUFFIX)), 2))      # 3
+# alias axis value: 'x<suffix>' (one spelling) or 'x<suffix>>x<suffix>' (both present: the first must win)
+ALIAS_SINGLE = ['x'] + ['x' + sfx for sfx in XY_SUFFIX if sfx != '']
+ALIAS_PAIR = [f'x{XY_SUFFIX[i]}>x{XY_SUFFIX[j]}' for i, j in XY_PAIRS]
+
 AXES = {                              # first value = default
     'psf': ['cgauss', 'gauss', 'image', 'gridded'],
     'fit': ['5', '5x7'],
     'mask': ['none', 'inbox', 'centre'],
     'err': ['none', 'flat', 'ramp'],
-    'bkg': ['none', 'column', 'estimator'],
+    # 'column+estimator': a local_bkg column AND a localbkg_estimator (the column must win); the scene is built so
+    # that the annulus of the estimator sees another level than the one under the sources
+    'bkg': ['none', 'column', 'estimator', 'column+estimator'],
     'bnd': ['none', '2', 'hit', 'hitx', 'asym'],
     'k': [1, 7],
     'scene': ['base', 'outside', 'neg'],
     'nan': ['none', 'nan', 'nan+mask', 'nancentre+mask'],
     'fitter': ['trf', 'lm', 'simplex'],
     'fix': ['none', 'xy', 'x', 'freefwhm'],
-    'fluxinit': ['given', 'aper'],
+    # 'given+aper': a flux column AND aperture_radius (the column must win)
+    'fluxinit': ['given', 'aper', 'given+aper'],
     'labels': ['seq', 'gap'],
+    # 'gid+grouper': a group_id column AND a grouper that would lump everything (the column must win)
     'mode': ['gid', 'gid+grouper', 'nogroup', 'sep1', 'sep3', 'sep6', 'sep30'],
     'driver': ['single', 'iter'],
     'noise': [0, 1],
+    # 'decoy': a finder (recording; returns two positions elsewhere) AND init_params (init_params must win and
+    # the finder must not be called).  The iterative driver always has it (a finder is mandatory there).
+    'finder': ['none', 'decoy'],
+    'alias': ALIAS_SINGLE + ALIAS_PAIR,
 }
 DEFAULT = {k: v[0] for k, v in AXES.items()}
 PRODUCT_AXES = ['psf', 'fit', 'mask', 'err', 'bkg', 'bnd', 'k']
 PRODUCT = {'psf': ['cgauss', 'gauss', 'image', 'gridded'], 'fit': ['5', '5x7'], 'mask': ['none', 'inbox', 'centre'],
-           'err': ['none', 'flat'], 'bkg': ['none', 'column', 'estimator'], 'bnd': ['none', '2', 'hit'], 'k': [1, 7]}
+           'err': ['none', 'flat'], 'bkg': ['none', 'column', 'estimator', 'column+estimator'],
+           'bnd': ['none', '2', 'hit'], 'k': [1, 7]}
+
+# precedence product: every documented "the table overrides the keyword" rule on / off, x one / two spellings of the
+# columns, x driver (the iterative driver requires a finder and an aperture radius, so those two are always "on")
+PREC_AXES = ['bkg', 'mode', 'finder', 'fluxinit', 'alias', 'driver']
+PREC = {'bkg': ['column', 'column+estimator'], 'mode': ['gid', 'gid+grouper'], 'finder': ['none', 'decoy'],
+        'fluxinit': ['given', 'given+aper'], 'alias': ['x', 'x_init>x'], 'driver': ['single', 'iter']}
+PREC_ALL = {'bkg': 'column+estimator', 'mode': 'gid+grouper', 'finder': 'decoy', 'fluxinit': 'given+aper',
+            'alias': 'x_init>x'}
+
+
+def prec_cfgs():
+    out = []
+    for vals in itertools.product(*[PREC[a] for a in PREC_AXES]):
+        c = dict(zip(PREC_AXES, vals))
+        if c['driver'] == 'iter' and (c['finder'] != 'decoy' or c['fluxinit'] != 'given+aper'):
+            continue                     # not constructible: IterativePSFPhotometry requires both
+        out.append({a: v for a, v in c.items() if v != DEFAULT[a]})
+    return out
+
 
 # single-axis deviations from the default configuration ("star")
 STAR = ([{}] + [{'psf': v} for v in ('gauss', 'image')] + [{'fit': '5x7'}] + [{'mask': v} for v in ('inbox', 'centre')]
-        + [{'err': v} for v in ('flat', 'ramp')] + [{'bkg': v} for v in ('column', 'estimator')]
+        + [{'err': v} for v in ('flat', 'ramp')] + [{'bkg': v} for v in ('column', 'estimator', 'column+estimator')]
         + [{'bnd': v} for v in ('2', 'hit', 'hitx', 'asym')] + [{'k': 7}])
 SPECIALS = ([{'scene': v} for v in ('outside', 'neg')] + [{'nan': v} for v in ('nan', 'nan+mask', 'nancentre+mask')]
             + [{'fitter': v} for v in ('lm', 'simplex')] + [{'fix': v} for v in ('xy', 'x', 'freefwhm')]
             + [{'fluxinit': 'aper'}, {'labels': 'gap'}, {'mode': 'gid+grouper'}, {'driver': 'iter'},
                {'labels': 'gap', 'fit': '5x7', 'mask': 'inbox', 'psf': 'gauss'}]
             + [{'noise': 1}, {'noise': 1, 'err': 'ramp'}, {'noise': 1, 'fit': '5x7', 'mask': 'centre'},
-               {'noise': 1, 'fix': 'freefwhm'}, {'noise': 1, 'labels': 'gap', 'psf': 'image'}])
+               {'noise': 1, 'fix': 'freefwhm'}, {'noise': 1, 'labels': 'gap', 'psf': 'image'}]
+            # precedence combinations: each override alone, all at once (both drivers), and with the other value
+            # of the neighbouring axes (estimator + column on a scaled image / wide box / mask; two spellings of an
+            # extra parameter column; finder + init_params without a flux column)
+            + [{'finder': 'decoy'}, {'fluxinit': 'given+aper'}, {'alias': 'x_init>x'}, dict(PREC_ALL),
+               dict(PREC_ALL, driver='iter'), {'bkg': 'column+estimator', 'driver': 'iter'},
+               {'bkg': 'column+estimator', 'k': 7, 'fit': '5x7', 'mask': 'inbox'},
+               {'bkg': 'column+estimator', 'psf': 'image', 'err': 'flat'},
+               {'bkg': 'column+estimator', 'fluxinit': 'aper'},
+               # free fwhm: all 3 spellings (fwhm with the default alias above, fwhm_fit, fwhm_init) and all 3 ordered
+               # pairs (fwhm_init>fwhm, fwhm_init>fwhm_fit, fwhm>fwhm_fit) of the extra-parameter column
+               {'alias': 'x_init', 'fix': 'freefwhm'}, {'alias': 'xinit', 'fix': 'freefwhm'},
+               {'alias': 'x_init>xinit', 'fix': 'freefwhm'}, {'alias': 'x_init>x', 'fix': 'freefwhm'},
+               {'alias': 'x_init>x_0', 'fix': 'freefwhm'}, {'alias': 'x_init>x_0', 'fix': 'freefwhm', 'noise': 1},
+               {'finder': 'decoy', 'fluxinit': 'aper'}])
 # configurations where the partition axis does not apply (all N! orders only)
 ORDER_ONLY = ([{'mode': m} for m in ('nogroup', 'sep1', 'sep3', 'sep6', 'sep30')]
               + [{'mode': m, 'driver': 'iter'} for m in ('sep3', 'sep30')]
               + [{'mode': 'sep6', 'noise': 1}, {'mode': 'sep3', 'fit': '5x7', 'mask': 'inbox'},
-                 {'mode': 'sep6', 'psf': 'image', 'k': 7}])
+                 {'mode': 'sep6', 'psf': 'image', 'k': 7},
+                 {'mode': 'sep3', 'finder': 'decoy'}, {'mode': 'sep3', 'bkg': 'column+estimator', 'alias': 'x_init>x'}])
 # N = 4 (360 cases per configuration) in the quick tier
-QUICK_N4 = [{}, {'labels': 'gap'}, {'fit': '5x7'}, {'mask': 'inbox'}, {'noise': 1}]
+QUICK_N4 = [{}, {'labels': 'gap'}, {'fit': '5x7'}, {'mask': 'inbox'}, {'noise': 1}, dict(PREC_ALL)]
 
 # --------------------------------------------------------------------------
 # tolerances (soundness rule 2) -- measured with C12_CAL=1 over the complete thorough space (43 600 photometry
@@ -128,9 +201,37 @@ def full_cfg(c):
     return out
 
 
-def cfg_tag(cfg, keys=('scene', 'nan', 'fitter', 'fix', 'fluxinit', 'mode', 'driver', 'bkg', 'bnd', 'mask', 'noise')):
+def cfg_tag(cfg, keys=('scene', 'nan', 'fitter', 'fix', 'fluxinit', 'mode', 'driver', 'bkg', 'bnd', 'mask', 'noise',
+                       'finder')):
     t = [f'{k}={cfg[k]}' for k in keys if cfg[k] != DEFAULT[k]]
+    if cfg['alias'] != DEFAULT['alias']:          # 104 spellings / pairs share two sites
+        t.append('alias=two-spellings' if '>' in cfg['alias'] else 'alias=other-spelling')
     return ','.join(t) or 'default'
+
+
+def alias_columns(alias, with_extra):
+    """(winning names, losing names or None) for x, y, flux[, fwhm] of one value of the alias axis.  The flux and
+    extra-parameter spellings follow the x/y one cyclically, so that the 14 + 91 values of the axis cover all 10 + 45
+    flux and all 3 + 3 extra-parameter spellings / ordered pairs as well."""
+    sfx = [a[1:] for a in alias.split('>')]
+    idx = [XY_SUFFIX.index(v) for v in sfx]
+    if len(idx) == 1:
+        i = idx[0]
+        win = ['x' + XY_SUFFIX[i], 'y' + XY_SUFFIX[i], FLUX_NAMES[i % len(FLUX_NAMES)]]
+        if with_extra:
+            win.append('fwhm' + EXTRA_SUFFIX[(i + 2) % len(EXTRA_SUFFIX)])      # 'x' -> 'fwhm'
+        return win, None
+    i, j = idx
+    assert i < j
+    rank = XY_PAIRS.index((i, j))
+    fi, fj = FLUX_PAIRS[rank % len(FLUX_PAIRS)]
+    win = ['x' + XY_SUFFIX[i], 'y' + XY_SUFFIX[i], FLUX_NAMES[fi]]
+    lose = ['x' + XY_SUFFIX[j], 'y' + XY_SUFFIX[j], FLUX_NAMES[fj]]
+    if with_extra:
+        ei, ej = EXTRA_PAIRS[rank % len(EXTRA_PAIRS)]
+        win.append('fwhm' + EXTRA_SUFFIX[ei])
+        lose.append('fwhm' + EXTRA_SUFFIX[ej])
+    return win, lose
 
 
 # --------------------------------------------------------------------------
@@ -209,7 +310,7 @@ _SCN = {}
 
 def scenario(cfg, N, seed):
     """Everything of a case that does not depend on row order / partition."""
-    key = (seed, N) + tuple(cfg[k] for k in sorted(AXES) if k not in ('labels', 'mode', 'driver'))
+    key = (seed, N) + tuple(cfg[k] for k in sorted(AXES) if k not in ('labels', 'mode', 'driver', 'finder', 'alias', 'fluxinit'))
     if key in _SCN:
         return _SCN[key]
     g = gen(seed)
@@ -228,13 +329,26 @@ def scenario(cfg, N, seed):
     peaks = [np.abs(im).max() for im in imgs]
     data = np.sum(imgs, axis=0)
     # background: uniform for the estimator; for the supplied column a step (5k left of x = 28, 8k right of it:
-    # the pair/cluster and the isolated source get different local_bkg values, no fit box touches the step)
+    # the pair/cluster and the isolated source get different local_bkg values, no fit box touches the step).
+    # column + estimator: the step only on "islands" (|dx|, |dy| <= 4.5 px around every source: every fit box of a
+    # start within 0.4 px lies inside, pixel centres <= 3 + 0.5 + 0.4 px away) and 11k elsewhere, so the annulus
+    # (9..12 px) of the estimator measures ~11k: using the wrong source of local_bkg is off by >= 3k per pixel.
     bmap = np.zeros(SHAPE)
+    step = np.where(np.arange(SHAPE[1]) < 28, 5.0 * k, 8.0 * k)
     if cfg['bkg'] == 'estimator':
         bmap += 5.0 * k
     elif cfg['bkg'] == 'column':
-        bmap += np.where(np.arange(SHAPE[1]) < 28, 5.0 * k, 8.0 * k)[None, :]
-    bsrc = [float(bmap[0, min(max(int(round(t[0])), 0), SHAPE[1] - 1)]) for t in truth]
+        bmap += step[None, :]
+    elif cfg['bkg'] == 'column+estimator':
+        yy, xx = np.mgrid[0:SHAPE[0], 0:SHAPE[1]]
+        island = np.zeros(SHAPE, bool)
+        for x, y, _ in truth:
+            island |= (np.abs(xx - x) <= 4.5) & (np.abs(yy - y) <= 4.5)
+        bmap += np.where(island, step[None, :] * np.ones(SHAPE), 11.0 * k)
+    if cfg['bkg'] in ('column', 'column+estimator'):
+        bsrc = [float(step[min(max(int(round(t[0])), 0), SHAPE[1] - 1)]) for t in truth]
+    else:
+        bsrc = [float(bmap[0, 0])] * N
     data = data + bmap
     if cfg['noise']:
         data = data + 0.03 * min(peaks) * g['noise']
@@ -321,8 +435,26 @@ def make_fitter(kind):
     return f
 
 
-def _dummy_finder(data, mask=None):        # never reached with maxiters=1 and init_params
-    return None
+DECOY_XY = [(5.0, 20.0), (30.0, 14.0)]     # inside the image, far from every source
+
+
+class DecoyFinder:
+    """Recording finder.  With init_params (and one iteration) the finder step is bypassed: it must never be
+    called; if it is, or if its table is used, the rows of the result are not the init rows."""
+
+    def __init__(self):
+        self.calls = 0
+
+    def __call__(self, data, mask=None):
+        from astropy.table import Table
+        self.calls += 1
+        t = Table()
+        t['xcentroid'] = [p[0] for p in DECOY_XY]
+        t['ycentroid'] = [p[1] for p in DECOY_XY]
+        return t
+
+    def __deepcopy__(self, memo):            # IterativePSFPhotometry deep-copies its PSFPhotometry: keep one counter
+        return self
 
 
 def build_phot(cfg, s, driver, aper=False):
@@ -342,29 +474,37 @@ def build_phot(cfg, s, driver, aper=False):
         grouper = SourceGrouper(100.0)       # would lump everything; a supplied group_id must win
     bnd = {'none': None, '2': 2.0, 'hit': 0.2, 'hitx': (0.2, None), 'asym': (2.0, 0.2)}[cfg['bnd']]
     kw = dict(grouper=grouper, fitter=make_fitter(cfg['fitter']), xy_bounds=bnd,
-              localbkg_estimator=LocalBackground(9, 12) if cfg['bkg'] == 'estimator' else None,
-              aperture_radius=3.0 if (cfg['fluxinit'] == 'aper' or driver == 'iter' or aper) else None)
+              localbkg_estimator=LocalBackground(9, 12) if cfg['bkg'] in ('estimator', 'column+estimator') else None,
+              aperture_radius=3.0 if (cfg['fluxinit'] in ('aper', 'given+aper') or driver == 'iter' or aper) else None)
+    finder = DecoyFinder() if (cfg['finder'] == 'decoy' or driver == 'iter') else None
     if driver == 'iter':
-        return IterativePSFPhotometry(psf, s['fit_shape'], _dummy_finder, maxiters=1, **kw), kw['fitter']
-    return PSFPhotometry(psf, s['fit_shape'], **kw), kw['fitter']
+        return IterativePSFPhotometry(psf, s['fit_shape'], finder, maxiters=1, **kw), kw['fitter'], finder
+    return PSFPhotometry(psf, s['fit_shape'], finder=finder, **kw), kw['fitter'], finder
 
 
 def build_init(cfg, s, perm, part):
     from astropy.table import Table
     rows = [s['init'][i] for i in perm]
     t = Table()
-    t['x'] = [r[0] for r in rows]
-    t['y'] = [r[1] for r in rows]
-    if cfg['fluxinit'] == 'given':
-        t['flux'] = [r[2] for r in rows]
-    if cfg['fix'] == 'freefwhm':
-        t['fwhm'] = [2.5] * len(rows)
+    # columns: [x, y, flux, fwhm] under the spelling(s) of the alias axis.  With two spellings the one that is later in
+    # the documented search order comes FIRST in the table and holds decoys (x + 3, y + 2, flux x 5, fwhm 4: still
+    # inside the image, but another fit box / another start), the earlier one holds the real start values.
+    vals = [[r[0] for r in rows], [r[1] for r in rows], [r[2] for r in rows], [2.5] * len(rows)]
+    decoy = [[r[0] + 3.0 for r in rows], [r[1] + 2.0 for r in rows], [r[2] * 5.0 for r in rows], [4.0] * len(rows)]
+    use = [True, True, cfg['fluxinit'] != 'aper', cfg['fix'] == 'freefwhm']
+    win, lose = alias_columns(cfg['alias'], with_extra=True)
+    for names, data in ((lose, decoy), (win, vals)):
+        if names is None:
+            continue
+        for nm, v, u_ in zip(names, data, use):
+            if u_:
+                t[nm] = v
     labels = None
     if cfg['mode'] in ('gid', 'gid+grouper'):
         lab = (lambda b: b + 1) if cfg['labels'] == 'seq' else (lambda b: GAP_LABELS[b])
         labels = [lab(part[i]) for i in perm]
         t['group_id'] = labels
-    if cfg['bkg'] == 'column':
+    if cfg['bkg'] in ('column', 'column+estimator'):
         t['local_bkg'] = [s['bsrc'][i] for i in perm]
     return t, labels
 
@@ -398,7 +538,8 @@ def run_case(acc, case, seed, cache=None):
     s = scenario(cfg, N, seed)
     tag = cfg_tag(cfg)
     init, labels = build_init(cfg, s, perm, part)
-    xin, yin = list(init['x']), list(init['y'])
+    win, _ = alias_columns(cfg['alias'], with_extra=True)
+    xin, yin = list(init[win[0]]), list(init[win[1]])
     truth_rows = [s['truth'][i] for i in perm]
 
     # ---- expected grouping (restricted-growth string over rows) -------------
@@ -418,7 +559,7 @@ def run_case(acc, case, seed, cache=None):
                              or len(set(sort_key)) < N)
     acc.case(nontrivial=nontrivial, sample=case if acc.evaluations % 997 == 3 else None)
 
-    ph, fitter = build_phot(cfg, s, cfg['driver'])
+    ph, fitter, finder = build_phot(cfg, s, cfg['driver'])
     data = s['data'].copy()
     try:
         with warnings.catch_warnings():
@@ -433,6 +574,17 @@ def run_case(acc, case, seed, cache=None):
         return None
     acc.outcome((tuple(int(v) for v in res['group_id']), tuple(int(v) for v in res['flags'])))
 
+    # ---- (0) init_params given: the finder step is bypassed ("The (x, y) values in init_params override this
+    #      keyword"; the iterative class uses the finder in "subsequent iterations" only, and maxiters = 1) ----------
+    if finder is not None:
+        fres = getattr(ph, 'finder_results', None)
+        if finder.calls or (cfg['driver'] == 'single' and fres is not None):
+            acc.violation('finder-bypass', f'driver={cfg["driver"]}', case,
+                          {'finder_calls': finder.calls, 'finder_results': str(fres)[:200]},
+                          {'finder_calls': 0, 'finder_results': None},
+                          'init_params supplies the positions: the finder must not run')
+            return None          # ids / row order below would only restate this defect
+
     # ---- (a) rows in input order, ids 1..N ----------------------------------
     if len(res) != N or [int(v) for v in res['id']] != list(range(1, N + 1)):
         acc.violation('ids', tag, case, [int(v) for v in res['id']], list(range(1, N + 1)))
@@ -442,8 +594,11 @@ def run_case(acc, case, seed, cache=None):
         acc.violation('row-order', f'{tag}:x_init/y_init', case, _r(got_init), _r([xin, yin]),
                       'output rows are not the input rows in input order')
         return None
-    if cfg['fluxinit'] == 'given' and _col(res, 'flux_init') != [float(v) for v in init['flux']]:
-        acc.violation('row-order', f'{tag}:flux_init', case, _r(_col(res, 'flux_init')), _r(list(init['flux'])))
+    if cfg['fluxinit'] != 'aper' and _col(res, 'flux_init') != [float(v) for v in init[win[2]]]:
+        acc.violation('row-order', f'flux_init:fluxinit={cfg["fluxinit"]},driver={cfg["driver"]}', case,
+                      _r(_col(res, 'flux_init')), _r(list(init[win[2]])),
+                      'flux_init is the supplied flux column (first spelling in the documented order; it overrides '
+                      'aperture_radius)')
         return None
 
     # ---- (b) groups: group_id, group_size and what was actually fitted together
@@ -561,9 +716,13 @@ def run_case(acc, case, seed, cache=None):
     # ---- (f) local background column ------------------------------------------
     lb = _col(res, 'local_bkg')
     bkg_exact = True
-    if cfg['bkg'] == 'column' or cfg['bkg'] == 'none':
+    if cfg['bkg'] in ('column', 'none', 'column+estimator'):
+        # no estimator: zeros; a supplied column is used as it is, whether or not an estimator exists ("If local_bkg
+        # is input, those values will be used and the localbkg_estimator will be ignored")
         if lb != [s['bsrc'][i] for i in perm]:
-            acc.violation('local_bkg', tag, case, _r(lb), [s['bsrc'][i] for i in perm])
+            acc.violation('local_bkg', f'bkg={cfg["bkg"]}', case, _r(lb), [s['bsrc'][i] for i in perm],
+                          'local_bkg column: the supplied values (they override the estimator), zeros without either')
+            return None          # recovery / residual below would only restate this defect
     else:
         # any (clipped) median of annulus pixels lies between the smallest and the largest annulus pixel; the
         # annulus (9..12 px, enlarged by 1 px for the pixel-centre rule) sees b + PSF wings of all sources.
@@ -652,7 +811,7 @@ def run_case(acc, case, seed, cache=None):
 
     # ---- (j) iterative driver with one iteration == PSFPhotometry ---------------------
     if cfg['driver'] == 'iter':
-        ph1, _ = build_phot(cfg, s, 'single', aper=True)
+        ph1, _, _ = build_phot(cfg, s, 'single', aper=True)
         with warnings.catch_warnings():
             warnings.simplefilter('ignore')
             res1 = ph1(s['data'].copy(), mask=None if s['umask'] is None else s['umask'].copy(),
@@ -822,34 +981,45 @@ def product_cfgs(tier):
     return out
 
 
+def alias_cfgs():
+    return [{'alias': a} for a in AXES['alias'] if a != DEFAULT['alias']]
+
+
 def plan(tier, seed):
     units = []
     nmax = 4 if tier == 'thorough' else 3
-    seen = set()
+    seen = {}
 
     def add(kind, cfg, ns):
-        key = (kind, tuple(sorted(cfg.items())), tuple(ns))
-        if key in seen:
+        key = (kind, tuple(sorted(cfg.items())))
+        ns = [n for n in ns if n not in seen.setdefault(key, set())]      # never run a case twice
+        if not ns:
             return
-        seen.add(key)
+        seen[key].update(ns)
         units.append({'kind': kind, 'cfg': cfg, 'Ns': list(ns)})
     if tier == 'quick':
         for c in QUICK_N4:
             add('partitions', c, [4])
         for c in STAR + SPECIALS:
             add('partitions', c, [1, 2, 3])
+        for c in prec_cfgs():
+            add('partitions', c, [1, 2])
+        for c in alias_cfgs():
+            add('partitions', c, [2])
         for c in ORDER_ONLY:
             add('orders', c, [1, 2, 3, 4])
     else:
         for c in STAR + SPECIALS:
             add('partitions', c, [4])
-        for c in product_cfgs(tier) + STAR + SPECIALS:
+        for c in product_cfgs(tier) + STAR + SPECIALS + prec_cfgs() + alias_cfgs():
             add('partitions', c, [1, 2, 3])
         for c in ORDER_ONLY:
             add('orders', c, [1, 2, 3, 4])
-    # long units first (load balance), but the default configuration with N <= 3 leads, so that the first recorded
-    # case of a violation key is a smallest one
-    units.sort(key=lambda u: (not (u['cfg'] == {} and u['kind'] == 'partitions' and max(u['Ns']) == 3), -max(u['Ns'])))
+    # long units first (load balance), but the default and the single-axis configurations with N <= 3 lead (short
+    # units), so that the first recorded case of a violation key is a smallest one
+    units.sort(key=lambda u: (not (u['cfg'] == {} and u['kind'] == 'partitions' and max(u['Ns']) == 3),
+                              not (len(u['cfg']) <= 1 and u['kind'] == 'partitions' and min(u['Ns']) == 1),
+                              -max(u['Ns'])))
     units.append({'kind': 'grouper', 'nmax': 4 if tier == 'thorough' else 3})
     return units
 
@@ -899,6 +1069,15 @@ def describe(tier, seed):
     return {'alphabet': {'sources': SRC, 'image_shape': list(SHAPE), 'axes': AXES,
                          'product_axes(N<=3, thorough)': PRODUCT, 'star': STAR, 'specials': SPECIALS,
                          'order_only': ORDER_ONLY, 'quick_N4': QUICK_N4,
+                         'precedence_product': {'axes': PREC, 'configurations': len(prec_cfgs()),
+                                                'N': '1..3' if tier == 'thorough' else '1..2 (+ each override alone, '
+                                                     'all at once for both drivers at N <= 3, all at once at N = 4)',
+                                                'rule': 'the init_params column / table wins; the finder is not called'},
+                         'column_spellings': {'xy_suffixes_in_documented_order': XY_SUFFIX, 'flux_names': FLUX_NAMES,
+                                              'extra_parameter_suffixes': EXTRA_SUFFIX,
+                                              'values': f'{len(ALIAS_SINGLE)} single spellings + {len(ALIAS_PAIR)} '
+                                                        'ordered pairs (winner real, loser decoy, loser first in the '
+                                                        'table)', 'N': '1..3' if tier == 'thorough' else '2'},
                          'grouper': {'lattice': '3x3 unit lattice, integer and generic origin', 'seps': GROUPER_SEPS,
                                      'tuples': f'all ordered tuples of <= {nmax} distinct points'}},
             'bound': {'N': '1..4', 'orders_x_partitions_per_configuration': per,
